@@ -44,6 +44,8 @@ Section ToMs.
         r1 <- (if nneq size (e_esize e) then
                  x <- pdiv (e_esize e) N0 ;; ev <- mk_n (e_end e) j x ;; Ok [ev]
                else Ok []) ;;
+        (* -en resets the growth rate in ms *)
+        let growth := if nneq size (e_esize e) then n0 else growth in
         alpha <- growth_rate n4N0 e ;;
         r2 <- (if nneq growth alpha then ev <- mk_g (e_end e) j alpha ;; Ok [ev] else Ok []) ;;
         let growth' := if nneq growth alpha then alpha else growth in
@@ -61,8 +63,7 @@ Section ToMs.
   Fixpoint insert_dp (x : dp) (l : list dp) : list dp :=
     match l with
     | [] => [x]
-    | y :: l' => if nlt (dp_time y) (dp_time x) || neqb (dp_time y) (dp_time x)
-                 then y :: insert_dp x l' else x :: l
+    | y :: l' => if nlt (dp_time y) (dp_time x) then y :: insert_dp x l' else x :: l
     end.
   Definition sort_dp (l : list dp) : list dp := fold_right insert_dp [] l.
 
